@@ -32,10 +32,10 @@ Definition ex_cfg : config := mkCfg
     (15, mkPair 15 3 4 true 2 false);
     (16, mkPair 16 4 2 true 1 false);
     (17, mkPair 17 1 2 true 1 false)]
-  [(1, mkRates 1 700000000000000000 900000000000000000 5 false false);
-    (2, mkRates 2 500000000000000000 900000000000000000 6 false false);
-    (3, mkRates 3 800000000000000000 920000000000000000 7 true false);
-    (4, mkRates 4 600000000000000000 900000000000000000 8 true true)]
+  [(1, mkRates 1 700000000000000000 900000000000000000 5 false false 50000000000000000 80000000000000000);
+    (2, mkRates 2 500000000000000000 900000000000000000 6 false false 50000000000000000 10000000000000000);
+    (3, mkRates 3 800000000000000000 920000000000000000 7 true false 25000000000000000 10000000000000000);
+    (4, mkRates 4 600000000000000000 900000000000000000 8 true true 50000000000000000 10000000000000000)]
   [((1, 1), [1; 2; 14]);
     ((1, 2), [9; 10; 17]);
     ((2, 1), [3; 4; 13]);
